@@ -256,6 +256,8 @@ pub struct WorldCfg {
     /// the stimulus), and S's raw socket watches ICMPv6 instead of UDP (a raw UDP socket would
     /// suppress the port-unreachable reply)
     pub stimulus_sockets: bool,
+    /// "twosock" part: a second UDP socket on every node
+    pub two_sockets: bool,
     pub r_any_ip: bool,
     /// multicast groups R joins
     pub r_join: Vec<Ipv6Address>,
@@ -332,6 +334,8 @@ pub struct Node {
     pub dev: FillDevice,
     pub sockets: SocketSet<'static>,
     pub udp: SocketHandle,
+    /// a second UDP socket, added AFTER `udp` (served later in an egress pass); "twosock" part
+    pub udp2: Option<SocketHandle>,
     pub warm: SocketHandle,
     pub raw: SocketHandle,
     pub icmp: Option<SocketHandle>,
@@ -397,6 +401,7 @@ impl Node {
         }
         let mut sockets = SocketSet::new(vec![]);
         let udp = sockets.add(udp_sock(8, 8192));
+        let udp2 = if cfg.two_sockets { Some(sockets.add(udp_sock(4, 4096))) } else { None };
         let mut w = if cfg.stimulus_sockets { udp_sock(4, 4096) } else { udp_sock(4, 256) };
         w.bind(WARM_PORT).unwrap();
         let warm = sockets.add(w);
@@ -431,7 +436,7 @@ impl Node {
         } else {
             None
         };
-        Node { iface, dev, sockets, udp, warm, raw, icmp, tcp, addrs, per_poll: None }
+        Node { iface, dev, sockets, udp, udp2, warm, raw, icmp, tcp, addrs, per_poll: None }
     }
     pub fn poll(&mut self, now: i64) {
         if let Some(n) = self.per_poll {
